@@ -44,7 +44,15 @@ def selection_extras():
                         {"membership": "join", "join_authorised_via_users_server": 5},
                         {"membership": "leave", "join_authorised_via_users_server": "@c:hs1.org"},
                         {"membership": "knock", "third_party_invite": {"signed": {"token": "t"}}},
-                        {"membership": ["join"]}, {}, {"membership": "org.custom"}):
+                        {"membership": ["join"]}, {}, {"membership": "org.custom"},
+                        # fields that only matter for another membership, present and ill-formed
+                        {"membership": "join", "third_party_invite": {}}, {"membership": "leave", "third_party_invite": {"display_name": "x"}},
+                        {"membership": "ban", "third_party_invite": "x"}, {"membership": "knock", "third_party_invite": 5},
+                        {"membership": "leave", "third_party_invite": {"signed": {"mxid": "@a:b"}}},
+                        {"membership": "join", "third_party_invite": None},
+                        {"membership": "invite", "join_authorised_via_users_server": 5},
+                        {"membership": "ban", "join_authorised_via_users_server": "nope"},
+                        {"membership": "knock", "join_authorised_via_users_server": ["@c:hs1.org"]}):
             b = authgen.Builder(v)
             b.create()
             ev = b.event("m.room.member", authgen.ALICE, content, state_key=authgen.BOB)
